@@ -58,7 +58,17 @@ where
         let store = Vec::from(bytes);
         // add data to entries
         for entry in &mut entries {
-            let mut remaining = &bytes[entry.offset as usize..];
+            let mut remaining = usize::try_from(entry.offset)
+                .ok()
+                .and_then(|offset| bytes.get(offset..))
+                .ok_or_else(|| {
+                    Error::Nom(format!(
+                        "offset {} of tag {} lies outside of the {} byte data section",
+                        entry.offset,
+                        entry.tag,
+                        bytes.len()
+                    ))
+                })?;
 
             match &mut entry.data {
                 IndexData::Null => {}
